@@ -185,6 +185,76 @@ def _ops(rv):
     return out
 
 
+
+
+def _ascii_rx(rx):
+    return not (re.search(r"\[\^|(?<!\\)\.", rx) or not all(ord(c) < 128 for c in rx))
+
+
+def _ascii_subject(F, f, subj, toks, depth):
+    """why the str `subj` (a term of function f) is ASCII-only text: the payload of a token whose pattern is ASCII, a slice
+    of such text, or a parameter / captured variable of a private function that receives such text at every call site"""
+    if depth > 4 or not isinstance(subj, tuple) or not subj:
+        return None
+    tokv = [t for t in _downcasts(subj) if t in toks]
+    if tokv:
+        return "the payload of Token::%s (`%s`)" % (tokv[-1], toks[tokv[-1]][1]) if _ascii_rx(toks[tokv[-1]][1]) else None
+    t = subj
+    while isinstance(t, tuple) and t and t[0] in ("ref", "deref", "cast") and isinstance(t[-1], tuple):
+        t = t[-1]
+    if t[0] == "call" and t[2] in ("index", "as_str", "as_ref", "deref", "trim_start_matches", "strip_prefix") and t[3]:
+        return _ascii_subject(F, f, t[3][0], toks, depth + 1)
+    if f.kind == "Closure" and t[0] == "field" and t[1][0] == "param" and t[1][1] == 1:
+        env = fm.closure_env(F, f)
+        i = f.path.rfind("::{closure#")
+        parent = F.fns.get(f.path[:i])
+        if parent is None or not t[2].isdigit() or int(t[2]) >= len(env):
+            return None
+        return _ascii_subject(F, parent, env[int(t[2])], toks, depth + 1)
+    if t[0] == "param" and f.kind in ("Fn", "AssocFn") and f.vis != "pub":
+        k = t[1]
+        sites = [(g, cs) for g in F.fns.values() for cs in g.calls() if cs.callee == f.path]
+        if not sites:
+            return None
+        whys = []
+        for g, cs in sites:
+            if len(cs.args) < k:
+                return None
+            w = _ascii_subject(F, g, Terms(g).operand(cs.args[k - 1]), toks, depth + 1)
+            if not w:
+                return None
+            whys.append(w)
+        return whys[0]
+    return None
+
+def comment_lines(F, rep):
+    """the lexer skips from `--` to the end of the line: a comment the printer writes without a terminating newline swallows
+    whatever is printed next (a definition line disappears from the reparsed program)"""
+    n = 0
+    for f in sorted(F.fns.values(), key=lambda x: x.path):
+        if not f.path.startswith("simplicity::human_encoding::") or f.path.startswith("simplicity::human_encoding::parse") \
+                or "error" in f.path or f.name == "fmt":
+            continue
+        blocks = set(f.rpo())
+        texts = list(str_consts(f))
+        for _b, pieces in templates_in(f, blocks):
+            lit = [p_[1] if p_[0] == "lit" else "\0" for p_ in pieces]
+            texts.append("".join(lit))
+        for tx in texts:
+            if "--" not in tx:
+                continue
+            n += 1
+            key = "%s: %r" % (fm.short(f.path), tx.replace("\0", "{}")[:40])
+            # every `--` must be followed, later in the same text, by a newline
+            tail = tx[tx.rindex("--"):]
+            if "\n" in tail:
+                rep.ok("C17.comment", key, None)
+            else:
+                rep.violation("C17.comment", "%s:%s" % (fm.short(f.path), tx.replace("\0", "{}").strip()[:30]),
+                              "%s writes the comment %r without a newline after it: the lexer skips to the end of the line, so the text printed "
+                              "next (a definition) is swallowed by the comment" % (f.path, tx.replace("\0", "{}")[:60]), f.where())
+    rep.floor("C17.comment", n, 4)
+
 def run(ctx, rep):
     F = ctx.facts("full")
     rep.rule("C17.keywords", "rendered keyword/payload of each combinator is what the lexer+parser map back to it")
@@ -192,6 +262,8 @@ def run(ctx, rep):
     rep.rule("C17.types", "every token the type printer emits is accepted by the type parser")
     rep.rule("C17.names", "generated names lex as symbols, cannot clash with user names, and every referenced node is printed")
     rep.rule("C17.rec", "parser recursion is reviewed")
+    rep.rule("C17.comment", "every `--` comment the printer writes ends its line")
+    comment_lines(F, rep)
     rep.rule("C17.entropy", "the parser's length guards on a fail literal admit the 512 bits the printer writes")
 
     toks = token_table(F)
@@ -299,7 +371,9 @@ def run(ctx, rep):
     if len(pe) != 1:
         rep.anchor("C17.keywords", "parse_expr")
     else:
-        f = pe[0]
+        # per-token helpers (`parse_unary(p, pos, Inner::InjL)`, `parse_const_body`, `Expression::inline`) are spliced in
+        f = F.inlined(pe[0], ("parse_expr", "parse_cmr", "parse_literal", "parse_type", "advance", "peek", "expect"), depth=3)
+        Tk = Terms(f)
         for b, si in enum_switches(f, "parse::ast::Token"):
             for tv, tgt in si[2].items():
                 reg = f.dominated_by(tgt)
@@ -311,6 +385,16 @@ def run(ctx, rep):
                                 vs.add(s[2]["variant"])
                             elif s[2]["adt"].endswith("ast::ExprInner") and s[2]["variant"] in ("AssertL", "AssertR"):
                                 vs.add(s[2]["variant"])
+                    # a variant constructor handed over as a function value and applied to the parsed children
+                    t_ = f.blocks[bb]["t"]
+                    if t_["k"] == "call" and "indirect" in t_["f"]:
+                        ct = Tk.operand(t_["f"]["indirect"])
+                        while isinstance(ct, tuple) and ct and ct[0] in ("cast", "ref", "deref") and isinstance(ct[-1], tuple):
+                            ct = ct[-1]
+                        if isinstance(ct, tuple) and ct and ct[0] == "fnitem" and isinstance(ct[1], str):
+                            m_ = re.search(r"node::inner::Inner(?:::<.*>)?::(\w+)$", ct[1])
+                            if m_:
+                                vs.add(m_.group(1))
                 if vs:
                     built.setdefault(tv, set()).update(vs)
 
@@ -622,6 +706,12 @@ def run(ctx, rep):
                 n_sl += 1
                 key = "%s:%s" % (fm.short(f.path), show(rng)[:60])
                 tokv = [t for t in _downcasts(subj) if t in toks]
+                if not tokv:
+                    # a private helper (or its closure) that is only ever handed ASCII token payloads
+                    why = _ascii_subject(F, f, subj, toks, 0)
+                    if why:
+                        rep.ok("C17.slice", key, "every caller passes " + why)
+                        continue
                 if tokv:
                     rx = toks[tokv[-1]][1]
                     if re.search(r"\[\^|(?<!\\)\.", rx) or not all(ord(c) < 128 for c in rx):
